@@ -184,7 +184,7 @@ def run(pid, tier):
                 raise C.Inconclusive("StackProto violates %s but the counterexample does not reproduce on the code (drift %s): "
                                      "the specification no longer describes the code" % (inv, co[0]["drift"][:2]))
 
-        if rej:
+        if rej and nviol == 0:
             raise C.Inconclusive("traces rejected by TraceStackFS (recorder/filesystem-model mismatch): %s" % rej[:3])
 
         # ---- evidence
